@@ -2,7 +2,7 @@
 import itertools
 from collections import Counter
 
-RGBA = [(255, 0, 0, 1.0), (0, 0, 255, 1.0), (0, 128, 0, 1.0), (255, 0, 0, 0.5)]
+RGBA = [(255, 0, 0, 1.0), (0, 0, 255, 1.0), (0, 128, 0, 1.0), (255, 0, 0, 0.333)]  # 0.333: an alpha that is no multiple of 0.01 (85/255)
 IDX = (None, 0, 1, 2, 3, 4, 5)
 UNIVERSE = [(r, g, b, a, i) for (r, g, b, a) in RGBA for i in IDX]
 BLACK = (0, 0, 0, 1.0, None)
